@@ -11,9 +11,17 @@ Independent spec (plain lists / strings, no cogent3 object):
   when ``F & W`` is non-empty and *may* be returned when its extent ``[min F, max F]`` meets the hull
   ``[min W, max W]`` (the weaker, record-level reading -- DESIGN.md C04); without partial matches it *must* be
   returned when ``F <= W`` and *may* be when its extent lies inside the hull.  A returned feature outside *may*
-  or an absent feature inside *must* is a violation; zero-width windows leave membership open.
+  or an absent feature inside *must* is a violation; zero-width windows leave membership open, and on a view
+  with stride ``k`` the hull is widened by ``k-1`` (the window boundary lies between displayed positions).
 * every returned feature must slice (``get_slice`` and ``view[feature]``) to the spec residues, and no query,
   history step or slice may raise.
+
+``add_feature`` on a view: the statement does not say how coordinates given to a reverse-complemented view are
+read, so displayed coordinates (strand relative to the view) and plus-strand coordinates of the displayed segment
+(absolute strand) are both accepted; the reading that explains the returned feature is binding afterwards.
+
+Failure keys: ``<carrier>/<type>/<load>[/offset]/<call site>/<symptom>/<feature class>/view=<class>/after=<step>``.
+A failing history is reported for its shortest failing prefix, so ``after=`` names the step that broke the property.
 
 Alignments: a root is ``{name: gapped row}``; a view is a list of root columns (display order), ``rev`` and the
 kept names.  A sequence feature lives on the degapped row; through the view it denotes the root columns that hold
@@ -124,10 +132,6 @@ def membership(Fabs, off, W, partial, st=1):
     return must, may
 
 
-def feat_kind(spans, strand):
-    return f"{len(spans)}span{strand}"
-
-
 def state_of(Fabs, off, pos):
     """how much of the feature the view retains: all / part / none / between (none, but inside the hull)"""
     F = [i - off for i in Fabs]
@@ -212,7 +216,7 @@ class Unreachable(Exception):
 
 
 def windows(m):
-    """query windows of a view of length m: [start, stop, zero_width]"""
+    """query windows [start, stop] of a view of length m: default, every 0<=a<b<=m, negative and zero-width ones"""
     out = [[None, None]]
     for a in range(m + 1):
         for b in range(a + 1, m + 1):
@@ -335,7 +339,7 @@ def check_queries(x, case, tag, sig, P, off, pos, rev, st, fdict, extra_kw=None)
     expect_slice = {n: feat_residues(P, off, f[2], f[3], retained) for n, f in fdict.items()}
     Fabs = {n: feat_positions(f[2]) for n, f in fdict.items()}
     label = {n: f"{len(f[2])}span:{state_of(Fabs[n], off, pos)}" for n, f in fdict.items()}
-    slabel = {n: f"{feat_kind(f[2], f[3])}:{state_of(Fabs[n], off, pos)}" for n, f in fdict.items()}
+    slabel = label
     sliced_ok = set()
     nontrivial = False
     shown = display(P, pos, rev)
@@ -826,7 +830,7 @@ def _contract_aln(case):
                 if f.name not in fdict:
                     return ("fail", f"{tag}/get_features({qname})/unknown-feature/view={sig}", f"{ctx} returned {f.name!r}")
                 fd = fdict[f.name]
-                lab = ("aln" if fd[1] is None else "seq") + f"{len(fd[3])}span{fd[4]}:{state(f.name)}"
+                lab = ("aln" if fd[1] is None else "seq") + f"{len(fd[3])}span:{state(f.name)}"
                 ident = (f.name, repr(f.map), f._strand)
                 if ident in sliced_ok:
                     continue
@@ -854,7 +858,7 @@ def _contract_aln(case):
     # projection of every distinct returned feature onto every displayed sequence (last: it writes to the db)
     for ident, f in sliced_ok.items():
         fd = fdict[f.name]
-        lab = ("aln" if fd[1] is None else "seq") + f"{len(fd[3])}span{fd[4]}:{state(f.name)}"
+        lab = ("aln" if fd[1] is None else "seq") + f"{len(fd[3])}span:{state(f.name)}"
         exp = expected_slice(f.name, nms)
         for m in nms:
             want = "".join(ch for ch in exp[m] if ch not in GAPS)
@@ -989,7 +993,7 @@ def contract_aln_seqs(case):
                             f"{ctx} returned {f.name!r}, which is not a feature of {n!r}")
                 fd = fdict[f.name]
                 exp = feat_residues(P, 0, fd[2], fd[3], set(pos))
-                lab = f"{feat_kind(fd[2], fd[3])}:{state_of(feat_positions(fd[2]), 0, pos)}"
+                lab = f"{len(fd[2])}span:{state_of(feat_positions(fd[2]), 0, pos)}"
                 try:
                     sl = str(f.get_slice())
                 except Exception as e:
@@ -1138,7 +1142,7 @@ def contract_coll(case):
                     name, n, bt, spans, strand = fd[f.name]
                     pos, rev, st = state[n]
                     exp = feat_residues(R[n], 0, spans, strand, set(pos))
-                    lab = f"{feat_kind(spans, strand)}:{state_of(feat_positions(spans), 0, pos)}"
+                    lab = f"{len(spans)}span:{state_of(feat_positions(spans), 0, pos)}"
                     try:
                         sl = str(f.get_slice())
                     except Exception as e:
